@@ -30,7 +30,7 @@ func genC16(t *rapid.T) C16Case {
 		pi := rapid.IntRange(0, len(vs)-1).Draw(t, "rel")
 		prev := vs[pi]
 		var s h.Spec
-		k := rapid.IntRange(0, 9).Draw(t, "kind")
+		k := rapid.IntRange(0, 10).Draw(t, "kind")
 		switch {
 		case prev.F != "f" || k == 0:
 			s = h.GenAny(t, "x", maxD)
@@ -91,6 +91,48 @@ func genC16(t *rapid.T) C16Case {
 			s.D = strings.TrimRight(render(append(append([]uint64{}, w...), extra...)), "0")
 			s.P = uint(19 * (nw + len(extra)))
 			s.Hist = ""
+		case k == 10:
+			// two long mantissas of the same length that agree except in two to four words anywhere (neighbouring words
+			// as after a carry, or far apart), the differences pointing in opposite directions: the most significant
+			// difference decides, whatever the comparison does with blocks of words
+			nw := rapid.IntRange(3, 70).Draw(t, "md.n")
+			w := h.GenWords(t, "md.w", nw)
+			if w[0] < h.Base/10 {
+				w[0] = h.Base/10 + w[0]%(h.Base/10)
+			}
+			w2 := append([]uint64{}, w...)
+			pos := rapid.IntRange(0, nw-1).Draw(t, "md.pos")
+			dir := rapid.Bool().Draw(t, "md.dir")
+			for j, nd := 0, rapid.IntRange(2, 4).Draw(t, "md.nd"); j < nd && pos < nw; j++ {
+				up := dir == (j%2 == 0)
+				switch {
+				case up && w2[pos] < h.Base-1:
+					w2[pos] += 1 + rapid.Uint64Range(0, h.Base-2-w2[pos]).Draw(t, "md.delta")%7
+				case !up && w2[pos] > h.Base/10+1:
+					w2[pos] -= 1 + rapid.Uint64Range(0, 5).Draw(t, "md.delta")
+				case !up && pos > 0 && w2[pos] > 0:
+					w2[pos]--
+				case pos > 0:
+					w2[pos] = h.Base / 2
+				}
+				pos += rapid.SampledFrom([]int{1, 1, 1, 2, 7, 8, 9}).Draw(t, "md.step")
+			}
+			render := func(ws []uint64) string {
+				le := make([]uint64, len(ws))
+				for i, x := range ws {
+					le[len(ws)-1-i] = x
+				}
+				d := strings.TrimRight(h.WordsToDigits(le), "0")
+				if d == "" {
+					d = "1"
+				}
+				return d
+			}
+			base := h.Spec{F: "f", D: render(w), E: prev.E, Neg: prev.Neg, M: h.GenMode(t, "md.m"), P: uint(19 * nw)}
+			base.Hist = rapid.SampledFrom([]string{"", "padfull"}).Draw(t, "md.h")
+			vs[pi] = base
+			s = base
+			s.D = render(w2)
 		case k <= 7:
 			// same digits, neighbouring exponent; or same exponent, different digits
 			s = prev
@@ -191,7 +233,7 @@ func checkC16(c C16Case, o *h.Obs) *h.Fail {
 	return nil
 }
 
-const ruleC16 = "rapid-generated pairs and triples: independent values (all forms, clean and dirty zeros/infinities), the same value stored with a different precision / mantissa length (extra low zero words) / mode / leftover accuracy, the same magnitude with opposite sign, values that differ only far down (appended or dropped low digits, across word boundaries), last digit +-1 on mantissas of different word counts, a mantissa against the same mantissa followed by whole extra words chosen so that 64-bit sums/differences of words wrap (2^63+2^63, ...), same digits at neighbouring exponents, same exponent with different digits. Oracle: exact order of the extended reals computed on (sign, digit string, exponent) without materialising powers of ten, -0 == +0; Cmp(x,y) == -Cmp(y,x); reflexivity; transitivity on triples; Sign, Signbit, IsZero, IsInf consistent with the value and with Cmp against zero; operands unchanged. Non-trivial = a pair with equal sign and exponent (mantissa comparison reached) whose mantissas have different word counts."
+const ruleC16 = "rapid-generated pairs and triples: independent values (all forms, clean and dirty zeros/infinities), the same value stored with a different precision / mantissa length (extra low zero words) / mode / leftover accuracy, the same magnitude with opposite sign, values that differ only far down (appended or dropped low digits, across word boundaries), last digit +-1 on mantissas of different word counts, a mantissa against the same mantissa followed by whole extra words chosen so that 64-bit sums/differences of words wrap (2^63+2^63, ...), same digits at neighbouring exponents, same exponent with different digits, long mantissas (3..70 words) of equal length that differ in two to four words, neighbouring or 7..9 words apart, in opposite directions. Oracle: exact order of the extended reals computed on (sign, digit string, exponent) without materialising powers of ten, -0 == +0; Cmp(x,y) == -Cmp(y,x); reflexivity; transitivity on triples; Sign, Signbit, IsZero, IsInf consistent with the value and with Cmp against zero; operands unchanged. Non-trivial = a pair with equal sign and exponent (mantissa comparison reached) whose mantissas have different word counts."
 
 var propC16 = &h.Prop[C16Case]{ID: "C16", Rule: ruleC16, Gen: genC16, Check: checkC16, Matchers: map[string]func(C16Case) bool{}}
 
